@@ -1,6 +1,7 @@
 package middleware
 
 import (
+	sessionsapi "github.com/oauth2-proxy/oauth2-proxy/v7/pkg/apis/sessions"
 	"net/http"
 	"net/url"
 
@@ -52,5 +53,59 @@ func vh_C17_client_headers() {
 		joined += g
 	}
 	verifAssert("C17.headers.client-values-complete-and-in-order", joined == want)
+	verifReach("end")
+}
+
+// one session, several headers derived from the same multi-valued claim (request and response
+// side): every header carries exactly the session's non-empty groups, in order -- producing one
+// header leaves what the next one sees untouched, and the session itself is not modified
+// verif: unwind=8 strlen=6
+func vh_C07_groups_twice() {
+	mk := func(name string) options.Header {
+		return options.Header{Name: name, Values: []options.HeaderValue{{ClaimSource: &options.ClaimSource{Claim: "groups"}}}}
+	}
+	ctor, err := NewRequestHeaderInjector([]options.Header{mk("X-Forwarded-Groups"), mk("X-Auth-Request-Groups")})
+	verifAssert("C07.groups.config-ok", err == nil)
+	if err != nil {
+		return
+	}
+	n := 1 + ndChoice("session-groups", 3)
+	s := &sessionsapi.SessionState{User: "u"}
+	want := ""
+	cnt := 0
+	var orig []string
+	for i := 0; i < n; i++ {
+		g := ndString("group")
+		if ndBool("group-is-empty") {
+			g = ""
+		}
+		s.Groups = append(s.Groups, g)
+		orig = append(orig, g)
+		if g != "" {
+			if cnt > 0 {
+				want += ","
+			}
+			want += g
+			cnt++
+		}
+	}
+	scope := &middlewareapi.RequestScope{Session: s}
+	req := middlewareapi.AddRequestScope(&http.Request{Method: "GET", URL: &url.URL{Path: "/"}, Header: http.Header{}}, scope)
+	var seen http.Header
+	ctor(http.HandlerFunc(func(_ http.ResponseWriter, r *http.Request) { seen = r.Header })).ServeHTTP(&vRW{}, req)
+	if seen == nil {
+		return
+	}
+	for _, name := range []string{"X-Forwarded-Groups", "X-Auth-Request-Groups"} {
+		got := ""
+		for i, v := range seen[name] {
+			if i > 0 {
+				got += ","
+			}
+			got += v
+		}
+		verifAssert("C07.groups.every-header-carries-exactly-the-session-groups", got == want)
+	}
+	verifAssert("C07.groups.session-unchanged", vEqStrings(s.Groups, orig))
 	verifReach("end")
 }
